@@ -33,6 +33,9 @@ def options(kind):
         g['java']['package'] = 'org.my_app.gen'
         g['cpp']['identifier'] = {'method': 'camelCase'}
         g['java']['use_final_for_record'] = False
+        # type annotations (the compile judge supplies the two annotation types): they must land in a legal position for every type shape
+        g['java']['nonnull_annotation'] = '@pdvann.NotNull'
+        g['java']['nullable_annotation'] = '@pdvann.Nullable'
     return {'generate': g}
 
 
